@@ -340,6 +340,11 @@ def nested_focus(draw):
     if not t_out and draw(st.integers(0, 3)) != 0:
         # mostly a non-empty outer spec: then the nested annotation prints (and its dim_str reads) exactly like the flat one
         t_out = [dl.Token("", "name", draw(st.sampled_from(["b", "a"])))]
+    inner_names = [t.base for t in t_in if t.base_kind == "name" and t.base]
+    if inner_names and draw(st.integers(0, 4)) == 0:
+        # the outer shape documents a fixed size with a name ('a=3') that the INNER annotation uses as an ordinary axis: the documentation
+        # name is ignored, the two have nothing to do with each other -- also after the two strings were joined and parsed again
+        t_out = [dl.Token("", "int", draw(st.sampled_from([3, 2])), draw(st.sampled_from(inner_names)), 0)]
     at = ["nested", inner, dl.spec_spelling(t_in), [draw(st.sampled_from(["np", "np", "any", "duck"]))]]
     if draw(st.integers(0, 3)) == 0:
         # three levels, the middle one without any axis of its own
